@@ -590,7 +590,7 @@ def txt(ctx: Any) -> List[Ob]:
     from sa import lf as _lfa
 
     wl = whiles[0]
-    ivar = norm(wl.test.left) if isinstance(wl.test, ast.Compare) else '?'
+    ivar = (norm(wl.test.left if isinstance(wl.test.ops[0], (ast.Lt, ast.LtE)) else wl.test.comparators[0]) if isinstance(wl.test, ast.Compare) and len(wl.test.ops) == 1 else '?')  # the variable of `v < bound`, either way round
     lens = []
     for st in walk_local_ordered(wl):
         if isinstance(st, ast.Assign) and isinstance(st.value, ast.Subscript) and not isinstance(st.value.slice, ast.Slice) and isinstance(st.targets[0], ast.Name):
